@@ -7,7 +7,8 @@ EXTENDS Props
 \* the specification's own rendering equals the observed result (items with tags on the rich lines
 \* route, plain cells otherwise)
 ModelAgrees(c, run) ==
-  LET m == RenderDoc(c.doms[run.d], run.cfg, run.w)
+  LET dom == IF "css" \in DOMAIN c.meta THEN Styled(c.doms[run.d], CssOf(c, run)) ELSE c.doms[run.d]
+      m == RenderDoc(dom, run.cfg, run.w)
       rich == run.route \in {"lines", "staged_lines"} /\ run.cfg.deco = "rich" IN
   /\ run.w >= 0
   /\ m.k = run.res.k
@@ -84,8 +85,12 @@ KF_Table(c) ==
   IF \A i \in 1..Len(c.runs) : SpansEmptyColumn(c, c.runs[i]) /\ ModelAgrees(c, c.runs[i])
   THEN "colspan-over-empty-column" ELSE ""
 
+\* not a finding: C18's generator-side deletion must be the reference deletion (tool sanity)
+KF_C18(c) == IF C18Sane(c) THEN "" ELSE "generator-mismatch"
+
 KFClass(prop, c) ==
   CASE prop = "C12" -> KF_C12(c)
+    [] prop = "C18" -> KF_C18(c)
     [] prop \in {"C05", "C06"} -> KF_Table(c)
     [] prop = "C08" -> KF_C08(c)
     [] prop = "C15" -> KF_C15(c)
